@@ -134,6 +134,19 @@ impl<C: CellType> BcInterpreter<C> {
     }
 }
 
+#[cfg(hpbf_verif)]
+impl<C: CellType> BcInterpreter<C> {
+    /// Verification hook: build an interpreter directly from a bytecode program.
+    pub fn verif_from_bytecode(bytecode: Program<C>) -> Self {
+        BcInterpreter { bytecode }
+    }
+
+    /// Verification hook: the bytecode this interpreter executes.
+    pub fn verif_bytecode(&self) -> &Program<C> {
+        &self.bytecode
+    }
+}
+
 impl<C: CellType> Executor<'_, C> for BcInterpreter<C> {
     fn create(code: &str, opt: u32) -> Result<Self, Error> {
         let mut program = ir::Program::<C>::parse(code)?;
